@@ -122,6 +122,9 @@ func c08(r *Report) propMeta {
 	r.Rule("C08.R6", "store-key agreement: every point read/delete addresses a written key family")
 	r.StoreKeyAgreement("store-keys", "tunnel", 7, nil)
 
+	r.Rule("C08.R7", "E19 constructors of x/tunnel/types store their inputs unchanged")
+	r.CtorFaithful("ctor", faithfulCtors["tunnel"]...)
+
 	return propMeta{
 		Decided: []string{
 			"R1 CreatePacket/DeductBasePacketFee/SetLatestPrices on the end-block path are under ProduceActiveTunnelPacket's CacheContext whose writeFn is gated by ProducePacket==nil; both routes sit under SendPacket's defer-recover that assigns the NAMED error result; latest prices are written only after CreatePacket and SendPacket succeeded",
@@ -130,6 +133,7 @@ func c08(r *Report) propMeta {
 			"R4 ProducePacket gated by HasEnoughFundToCreatePacket, DeactivateTunnel on the other edge, same tunnel id; end-block iterates only GetActiveTunnelIDs; TriggerTunnel gated by creator, IsActive and fund check",
 			"R5 GetSigningFee and createSigningRequest compute FeePerSigner.MulInt(current group Threshold) from the same reads",
 			"R6 every KV-store Get/Has/Delete of x/tunnel uses a key builder of x/tunnel/types that some Set of the module also uses (a probe of an iteration prefix or of a sibling family is always-empty state)",
+			"R7 the literal constructors of x/tunnel/types (frozen list) store each parameter or a constant unchanged in the record they build: what a handler validated is what is stored",
 		},
 		Undecided: []string{"'exactly when due' over price trajectories", "deviation arithmetic values", "route-internal behaviour (bandtss/ibc) beyond the recover barrier"},
 		Assume:    []string{"CacheContext isolates writes until writeFn", "bank SendCoins* either moves the full amount or errors", "msg handlers are atomic"},
